@@ -41,9 +41,70 @@ class C07(Prop):
                 v = rng.choice([None, t[0][-1], (t[0][-1], t[0][0])])
                 yield Case('lookup', (False, False, k, v, t))
                 yield Case('lookup', (True, rng.random() < 0.5, k, v, t))
+                # the whole family (lookup / dictlookup / recordlookup and their *one forms), also into a mapping that hands
+                # out copies of its values (as shelve does): judged against an independent grouping of the rows
+                if isinstance(k, str) and len(set(t[0])) == len(t[0]):
+                    yield Case('lookup_family', (k, t))
+
+    def expand(self, case):
+        if case.op == 'lookup_family':
+            return Case('const_true', case.arg, dict(case.meta, orig='lookup_family'))
+        return case
+
+    def _family(self, k, t):
+        import petl as etl
+        from petl.errors import DuplicateKeyError
+
+        class CopyingDict(dict):
+            def __getitem__(self, key):
+                v = dict.__getitem__(self, key)
+                return list(v) if isinstance(v, list) else v
+
+        src = [tuple(r) for r in t]
+        hdr = t[0]
+        ki = hdr.index(k)
+        groups = {}
+        order = []
+        for r in src[1:]:
+            try:
+                hash(r[ki])
+            except TypeError:
+                return True
+            if r[ki] not in groups:
+                order.append(r[ki])
+            groups.setdefault(r[ki], []).append(r)
+        dup = any(len(v) > 1 for v in groups.values())
+        as_dict = lambda r: dict(zip(hdr, r))   # noqa
+        ok = True
+        for store in (None, 'copy'):
+            mk = (lambda: None) if store is None else (lambda: CopyingDict())
+            got = etl.lookup(src, k, dictionary=mk())
+            ok &= {kk: [tuple(x) for x in vv] for kk, vv in got.items()} == groups
+            got = etl.dictlookup(src, k, dictionary=mk())
+            ok &= {kk: list(vv) for kk, vv in got.items()} == {kk: [as_dict(r) for r in vv] for kk, vv in groups.items()}
+            got = etl.recordlookup(src, k, dictionary=mk())
+            ok &= {kk: [tuple(x) for x in vv] for kk, vv in got.items()} == groups
+        first = {kk: vv[0] for kk, vv in groups.items()}
+        ok &= {kk: tuple(vv) for kk, vv in etl.lookupone(src, k, strict=False).items()} == first
+        ok &= dict(etl.dictlookupone(src, k, strict=False)) == {kk: as_dict(vv) for kk, vv in first.items()}
+        ok &= {kk: tuple(vv) for kk, vv in etl.recordlookupone(src, k, strict=False).items()} == first
+        for f in (etl.lookupone, etl.dictlookupone, etl.recordlookupone):
+            try:
+                f(src, k, strict=True)
+                raised = False
+            except DuplicateKeyError:
+                raised = True
+            ok &= (raised == dup)
+        return bool(ok)
 
     def impl(self, case):
         import petl as etl
+        if case.op == 'const_true':
+            try:
+                return codec.t_bool(self._family(*case.arg))
+            except Exception as e:   # noqa
+                from ..core import obs_exc
+                return obs_exc(e)
         if case.op == 'hashjoin':
             kn, key, lkey, rkey, missing, lp, rp, l, r = case.arg
             try:
@@ -100,6 +161,8 @@ class C07(Prop):
         return True
 
     def spec(self, case, impl_obs, model_obs):
+        if case.op == 'const_true':
+            return impl_obs == codec.t_bool(True)
         if case.op == 'hashjoin' and self.valid(case) and impl_obs[0] != 'li':
             return False
         if case.op == 'lookup':
@@ -135,6 +198,8 @@ class C07(Prop):
         return scs
 
     def nontrivial(self, case):
+        if case.op in ('const_true', 'lookup_family'):
+            return len(case.arg[1]) > 2
         if case.op == 'hashjoin':
             return len(case.arg[7]) > 1 and len(case.arg[8]) > 1
         return len(case.arg[4]) > 2
